@@ -67,7 +67,7 @@ def bitset_tree_correct_full : Prop :=
 /-- 65 conditions that all hold of the only row of a group: the leaf for the 65th is false -/
 theorem bitset_tree_correct_counterexample : ¬ bitset_tree_correct_full := by
   intro h
-  have := h ⟨fun _ _ => false, fun _ => [], fun _ => false, fun _ _ _ => false, id⟩ ⟨fun _ _ _ _ => false⟩ [] [[]]
+  have := h { reMatch := fun _ _ => false, jsonLabels := fun _ => [], isNum := fun _ => false, numCmp := fun _ _ _ => false, lower := id } ⟨fun _ _ _ _ => false⟩ [] [[]]
     (List.replicate 65 (.int 1)) false (.leaf 64)
   revert this
   decide
